@@ -149,3 +149,66 @@ def lemmas(tier, seed):
                               + (f"; also reads {bad}" if bad else "")})
     out.append(VF.ownership_lemma(idx))
     return out
+
+
+# =========================================================================== Parameter / Parameters (lookup by position and by name)
+MDL = "_griffe.models:"
+from pyvc import models  # noqa: E402
+
+
+def mk_parameters(P):
+    NAME = z3.Function("PARAMETER_NAME", IntS, StrS)
+
+    def mk(i):
+        return SObj("Parameter", {"name": SStr(NAME(zint(i))), "__index": SInt(zint(i))}, ident=z3.Function("PARAMETER_OBJECT", IntS, IntS)(zint(i)), frozen=True)
+    seq = sym_seq(P, "parameters", mk)
+    j1, j2 = z3.Int("ja"), z3.Int("jb")
+    return SObj("Parameters", {"_params": seq}, ident=z3.Int("parameters_id"), frozen=True), seq, NAME
+
+
+@contract("C02", "parameter.required", [MDL + "Parameter.required"], floor=1)
+def c_required(P):
+    d = opt(P, "default", lambda: P.fresh_str("default_text"))
+    p = SObj("Parameter", {"default": d}, frozen=True)
+    r = P.getattr(p, "required")
+    P.prove("required_iff_no_default", py_bool(P, r) == d.alts[0][0])
+
+
+@contract("C02", "parameters.lookup", [MDL + "Parameters.__getitem__", MDL + "Parameters.__contains__", MDL + "Parameters.__len__"], floor=6, replay="replay_handle_function", split=16)
+def c_parameters_lookup(P):
+    """By position: the parameter at that position (IndexError outside); by name (leading stars ignored): the first parameter of that name, KeyError if none;
+    `in` answers whether such a parameter exists; len is the number of parameters."""
+    ps, seq, NAME = mk_parameters(P)
+    n = zint(seq.len)
+    STRIPPED = models.ufn("str_lstrip_2a", StrS, StrS)
+    by_index = z3.Bool("lookup_by_index")
+    if P.branch(by_index):
+        i = P.fresh_int("index")
+        kind, res = outcome(P, lambda: models.getitem(P, ps, i))
+        inb = z3.And(i.z >= -n, i.z < n)
+        if kind == "raise":
+            P.prove("index_error_only_outside", z3.And(z3.BoolVal(P.resolve_cls(res) == "IndexError"), z3.Not(inb)))
+        else:
+            P.prove("positional_lookup_returns_that_parameter", z3.And(inb, res.ident == z3.Function("PARAMETER_OBJECT", IntS, IntS)(z3.If(i.z < 0, n + i.z, i.z))))
+        P.cover("index")
+        return
+    name = P.fresh_str("lookup_name")
+    key = STRIPPED(name.z)
+    k = z3.Int("k_any")          # an arbitrary position (free in the goals: they hold for every k)
+    P.witness.update(parameters=seq, lookup_name=name, k_any=SInt(k))
+    kind, res = outcome(P, lambda: models.getitem(P, ps, name))
+    if kind == "raise":
+        P.prove("key_error_only_when_no_parameter_has_that_name", z3.And(z3.BoolVal(P.resolve_cls(res) == "KeyError"), z3.Implies(z3.And(k >= 0, k < n), NAME(k) != key)))
+    else:
+        w = zint(res.fields["__index"])
+        P.prove("named_lookup_returns_a_parameter_of_that_name", z3.And(w >= 0, w < n, NAME(w) == key))
+        P.prove("named_lookup_returns_the_first_parameter_of_that_name", z3.Implies(z3.And(k >= 0, k < w), NAME(k) != key))
+    kind2, res2 = outcome(P, lambda: models.contains(P, ps, name))
+    if kind2 == "raise":
+        P.prove("membership_never_raises", False)
+    else:
+        # `in` and `[...]` agree: present iff the lookup succeeded
+        P.prove("membership_agrees_with_lookup", zbool(res2) == z3.BoolVal(kind == "ok"))
+    ln = models._b_len(P, [ps], {})
+    P.prove("len_is_the_number_of_parameters", zint(ln) == n)
+    P.cover("name")
